@@ -34,8 +34,11 @@ ACCESSOR = re.compile(r'^\s*(?:::)?(?:\w+\s*::\s*)*Dzn\s*::\s*(Sts|Mts)\s*<[^>]+
 
 
 def toy_model(prov, req, injected):
-    """A component with the given provides/requires port names (one shared interface)."""
-    itf = {'k': 'interface', 'name': ['I'], 'types': [], 'events': [
+    """A component with the given provides/requires port names (one shared interface, which is
+    also fit for a multi-client configuration: Claim replies an enum, Do is a void in-event)."""
+    itf = {'k': 'interface', 'name': ['I'], 'types': [{'k': 'enum', 'name': ['R'], 'fields': ['Ok', 'No']}],
+           'events': [
+        {'name': 'Claim', 'dir': 'in', 'ret': ['R'], 'formals': []},
         {'name': 'Do', 'dir': 'in', 'ret': ['void'], 'formals': []},
         {'name': 'Done', 'dir': 'out', 'ret': ['void'], 'formals': []}]}
     ports = [{'name': 'p' + n, 'type': ['I'], 'dir': 'provides', 'injected': False} for n in prov]
@@ -134,6 +137,11 @@ def check_case(case):
     pn, rn, jn = ['p' + n for n in prov], ['r' + n for n in req], ['r' + n for n in inj]
     verdict, ref = ports_semantics(ps, rs, pn, rn, jn)
     spec = spec_for(ps, rs, ['My', 'Comp'])
+    if case.get('mc'):
+        # multi-client on provides port p<mc>: valid only if that port ends up multi-threaded
+        spec['mc'] = {'port': 'p' + case['mc'], 'claim': 'Claim', 'grant': ['Ok'], 'release': 'Do'}
+        if verdict != MUST_REJECT and ref.get('p' + case['mc']) != 'MTS':
+            verdict = MUST_REJECT
     fc = toy_fc(prov, req, inj) if case['build'] else None
     judge(verdict, ref, spec, fc, pn, rn, jn, case['build'])
 
@@ -157,6 +165,16 @@ def side_cases():
                 yield {'prov': ['x'], 'req': exposed, 'inj': ['j'], 'psel': ['NONE', 'ALL'],
                        'rsel': [s if isinstance(s, str) else list(s),
                                 m if isinstance(m, str) else list(m)], 'build': True}
+
+
+def mc_cases():
+    """Every provides selection against a component whose provides port `a` carries a valid
+    multi-client configuration (and 0-2 further provides ports)."""
+    for exposed in (['a'], ['a', 'b'], ['a', 'b', 'c'], ['b', 'a', 'c']):
+        for s in SELS:
+            for m in SELS:
+                yield {'prov': exposed, 'req': [], 'inj': [], 'psel': [s, m], 'rsel': ['NONE', 'ALL'],
+                       'build': True, 'mc': 'a'}
 
 
 def nontrivial(case):
@@ -212,7 +230,8 @@ def product_sweep(ctx):
 
 @st.composite
 def sampled_case(draw):
-    sm = draw(gen_shell.shell_model(force=['many_ports'] if draw(st.booleans()) else None))
+    sm = draw(gen_shell.shell_model(force=draw(st.sampled_from(
+        [['many_ports'], None, ['many_provides', 'mc_ready'], ['mc_ready', 'many_ports']]))))
     table = gen_shell.port_table(sm)
     prov = [p['name'] for p in table if p['dir'] == 'provides']
     req = [p['name'] for p in table if p['dir'] == 'requires' and not p['injected']]
@@ -227,8 +246,14 @@ def sampled_case(draw):
         if not pool:
             return draw(st.sampled_from(WILD))
         return draw(st.lists(st.sampled_from(pool), min_size=1, max_size=4, unique=True))
+    mc = None
+    cands = gen_shell.mc_candidates(sm)
+    if cands and draw(st.integers(0, 2)) == 0:
+        port, claim, enum, release = draw(st.sampled_from(cands))
+        mc = {'port': port, 'claim': claim['name'], 'grant': [enum['elem']['fields'][0]],
+              'release': release['name']}
     return {'sm': sm, 'psel': [sel(prov, req), sel(prov, req)],
-            'rsel': [sel(req + inj, prov), sel(req + inj, prov)]}
+            'rsel': [sel(req + inj, prov), sel(req + inj, prov)], 'mc': mc}
 
 
 def check_sampled(case):
@@ -239,6 +264,12 @@ def check_sampled(case):
     inj = [p['name'] for p in table if p['injected']]
     verdict, ref = ports_semantics(tuple(case['psel']), tuple(case['rsel']), prov, req, inj)
     spec = spec_for(case['psel'], case['rsel'], sm['enc'])
+    if case.get('mc'):
+        # a (valid) multi-client setting does not give its port a semantics by itself; on a port
+        # that ends up single-threaded it is an invalid setting and the build must fail
+        spec['mc'] = case['mc']
+        if verdict != MUST_REJECT and ref.get(case['mc']['port']) == 'STS':
+            verdict = MUST_REJECT
     fc = cfgspec.parse_model(sm['model'])
     judge(verdict, ref, spec, fc, prov, req, inj, True)
 
@@ -246,8 +277,11 @@ def check_sampled(case):
 def run(ctx):
     ctx.enumerate('per_side_exhaustive', side_cases(), check_case, nontrivial=nontrivial,
                   labels=labels)
+    ctx.enumerate('with_multiclient', mc_cases(), check_case, nontrivial=nontrivial,
+                  labels=lambda c: ['multi-client'] + labels(c))
     ctx.exhaustive = True
-    ctx.extra['exhaustive_part'] = 'per side: 8 exposed sets x 18 x 18 selections, every case built'
+    ctx.extra['exhaustive_part'] = 'per side: 8 exposed sets x 18 x 18 selections, every case built; ' \
+                                   '4 provides layouts x 18 x 18 selections with a multi-client port'
     if not ctx.quick:
         product_sweep(ctx)
         ctx.extra['exhaustive_part'] += '; both sides: (8 x 18 x 18)^2 at construction+match level'
